@@ -78,6 +78,68 @@ func loadPackages(repo string, patterns []string) (*Loaded, error) {
 	return ld, nil
 }
 
+// scratchMods: packages of the separate tools/god module that cannot be loaded in place offline. Their non-test
+// sources are copied byte-for-byte into a scratch module (only the module context is replaced).
+var scratchMods = map[string]string{
+	modulePrefix + "/tools/god/util/format":  "module " + modulePrefix + "/tools/god/util/format\n\ngo 1.19\n",
+	modulePrefix + "/tools/god/util/stringx": "module " + modulePrefix + "/tools/god/util/stringx\n\ngo 1.19\n\nrequire golang.org/x/text v0.5.0\n",
+}
+
+func loadScratch(repo, pkgPath string) (*Loaded, error) {
+	modText, ok := scratchMods[pkgPath]
+	if !ok {
+		return nil, fmt.Errorf("no scratch module definition for %s", pkgPath)
+	}
+	dir, err := os.MkdirTemp("", "govc-scratchpkg-")
+	if err != nil {
+		return nil, err
+	}
+	defer os.RemoveAll(dir)
+	src := filepath.Join(repo, strings.TrimPrefix(pkgPath, modulePrefix+"/"))
+	ents, err := os.ReadDir(src)
+	if err != nil {
+		return nil, err
+	}
+	for _, e := range ents {
+		n := e.Name()
+		if e.IsDir() || !strings.HasSuffix(n, ".go") || strings.HasSuffix(n, "_test.go") {
+			continue
+		}
+		b, err := os.ReadFile(filepath.Join(src, n))
+		if err != nil {
+			return nil, err
+		}
+		os.WriteFile(filepath.Join(dir, n), b, 0o644)
+	}
+	os.WriteFile(filepath.Join(dir, "go.mod"), []byte(modText), 0o644)
+	env := append(os.Environ(), "GOFLAGS=-mod=mod", "GOPROXY=off", "GOSUMDB=off", "GOTOOLCHAIN=local", "GOWORK=off")
+	cfg := &packages.Config{Mode: packages.LoadAllSyntax, Dir: dir, Env: env, BuildFlags: []string{"-tags=verif"}}
+	pkgs, err := packages.Load(cfg, ".")
+	if err != nil {
+		return nil, err
+	}
+	var errs []string
+	for _, p := range pkgs {
+		for _, e := range p.Errors {
+			errs = append(errs, e.Error())
+		}
+	}
+	if len(errs) > 0 {
+		return nil, fmt.Errorf("package errors: %s", strings.Join(errs, "; "))
+	}
+	prog, _ := ssautil.AllPackages(pkgs, ssa.GlobalDebug)
+	ld := &Loaded{prog: prog, pkgs: map[string]*packages.Package{}, spkgs: map[string]*ssa.Package{}, funcs: map[string]*ssa.Function{}}
+	packages.Visit(pkgs, nil, func(p *packages.Package) { ld.pkgs[p.PkgPath] = p })
+	for _, sp := range prog.AllPackages() {
+		ld.spkgs[sp.Pkg.Path()] = sp
+		if strings.HasPrefix(sp.Pkg.Path(), modulePrefix) {
+			sp.Build()
+			ld.indexPackage(sp)
+		}
+	}
+	return ld, nil
+}
+
 func (ld *Loaded) indexPackage(sp *ssa.Package) {
 	var add func(fn *ssa.Function)
 	add = func(fn *ssa.Function) {
@@ -275,7 +337,16 @@ func cmdCheck(args []string) int {
 		return engineFailure(*prop, outDir, "no function or lemma under contract carries property "+*prop)
 	}
 	var patterns []string
+	scratchLoaded := map[string]*Loaded{}
 	for p := range pkgSet {
+		if _, isScratch := scratchMods[p]; isScratch {
+			sl, err := loadScratch(*repo, p)
+			if err != nil {
+				return engineFailure(*prop, outDir, "load (scratch module) "+p+": "+err.Error())
+			}
+			scratchLoaded[p] = sl
+			continue
+		}
 		patterns = append(patterns, "./"+strings.TrimPrefix(strings.TrimPrefix(p, modulePrefix), "/"))
 	}
 	sort.Strings(patterns)
@@ -299,7 +370,16 @@ func cmdCheck(args []string) int {
 	trusted := map[string]bool{}
 	notes := map[string]bool{}
 	nPaths := 0
+	mainLd := ld
 	for _, c := range targets {
+		ld := mainLd
+		if sl, ok := scratchLoaded[c.Pkg]; ok {
+			ld = sl
+		}
+		if ld == nil {
+			engineErrs = append(engineErrs, "package "+c.Pkg+" not loaded")
+			continue
+		}
 		fn := ld.funcs[c.Pkg+"::"+c.Name]
 		if fn == nil {
 			engineErrs = append(engineErrs, fmt.Sprintf("binding: function %s.%s under contract (%s) not found in the current tree", pkgShort(c.Pkg), c.Name, c.Src))
